@@ -466,6 +466,21 @@ func (fx *c10Fix) call(e *vnative.Env, ev string) vnative.CallResult {
 			panic(err)
 		}
 		return gov(governance.WITHDRAW, sink.Bytes(), wit(a))
+	case "wdl": // wdl:A:P8+P9+P8:250+500+250  one withdraw call with several (peer, amount) entries
+		a := f[1]
+		ps, as := strings.Split(f[2], "+"), strings.Split(f[3], "+")
+		if len(ps) != len(as) {
+			panic("bad list in " + ev)
+		}
+		prm := &governance.WithdrawParam{Address: fx.actor[a]}
+		for i, p := range ps {
+			prm.PeerPubkeyList = append(prm.PeerPubkeyList, fx.peer[p])
+			prm.WithdrawList = append(prm.WithdrawList, u32(as[i]))
+		}
+		if err := prm.Serialization(sink); err != nil {
+			panic(err)
+		}
+		return gov(governance.WITHDRAW, sink.Bytes(), wit(a))
 	case "approve": // deprecated admin path: only for RegisterCandidateStatus peers
 		(&governance.ApproveCandidateParam{PeerPubkey: fx.peer[f[1]]}).Serialization(sink)
 		return gov(governance.APPROVE_CANDIDATE, sink.Bytes(), wit("ADM"))
